@@ -129,6 +129,48 @@ func relFact(cf condFact, isLeft func(ssa.Value) bool) (op token.Token, other ss
 
 // minLen: the greatest lower bound on len(x) implied by x's construction or by
 // the conditions dominating b.
+// minLenLifted: minLen at this site; when x is a parameter of an unexported function whose call sites are all static,
+// also the least lower bound the callers establish for the argument they pass (a precondition the helper relies on).
+func (c *Ctx) minLenLifted(b *ssa.BasicBlock, x ssa.Value, depth int) int64 {
+	have := minLen(b, x)
+	p, ok := x.(*ssa.Parameter)
+	if !ok || depth > 2 {
+		return have
+	}
+	fn := p.Parent()
+	if fn.Parent() == nil && fn.Object() != nil && fn.Object().Exported() {
+		return have
+	}
+	idx := -1
+	for i, q := range fn.Params {
+		if q == p {
+			idx = i
+		}
+	}
+	n := c.P.CallGraph().Nodes[fn]
+	if n == nil || idx < 0 {
+		return have
+	}
+	var least int64 = -1
+	for _, e := range n.In {
+		if e.Site == nil || e.Caller.Func == nil || c.isTestFunc(e.Caller.Func) {
+			continue
+		}
+		cc := e.Site.Common()
+		if cc.IsInvoke() || cc.StaticCallee() != fn || idx >= len(cc.Args) {
+			return have
+		}
+		m := c.minLenLifted(e.Site.Block(), cc.Args[idx], depth+1)
+		if least < 0 || m < least {
+			least = m
+		}
+	}
+	if least > have {
+		return least
+	}
+	return have
+}
+
 func minLen(b *ssa.BasicBlock, x ssa.Value) int64 {
 	var best int64
 	switch y := x.(type) {
@@ -345,7 +387,7 @@ func (c *Ctx) lenMinusRule(rule string, fns []*ssa.Function, suppress map[string
 						c.S.OK(rule, construct, c.pos(u.At.Pos()), "suppressed: "+why, false)
 						continue
 					}
-					have := minLen(u.At.Block(), x)
+					have := c.minLenLifted(u.At.Block(), x, 0)
 					c.S.Check(have >= k, rule, construct, c.pos(u.At.Pos()), fmt.Sprintf("len ≥ %d established before the access", have),
 						fmt.Sprintf("%s len(x)-%d of the same slice, but no dominating condition on this value establishes len(x) ≥ %d (known: ≥ %d); an empty or short x panics", u.Role, k, k, have))
 				}
